@@ -26,9 +26,11 @@ Plan gen_c39(sk::Rng& r, Tier) {
     for (int i = 0; i < n; ++i) {
         Op op;
         const auto c = r.below(100);
-        if (c < 50) { op.k = "adv"; op.a = {r.pick<std::int64_t>({1000, 3000, 5500, 8000, 21000, 61000})}; }
-        else if (c < 85) { op.k = "probe"; op.a = {static_cast<std::int64_t>(r.below(2))}; }
-        else { op.k = "pause_ticks"; op.a = {static_cast<std::int64_t>(r.below(2)), r.pick<std::int64_t>({2000, 9000, 30000})}; }
+        if (c < 46) { op.k = "adv"; op.a = {r.pick<std::int64_t>({1000, 3000, 5500, 8000, 21000, 61000})}; }
+        else if (c < 82) { op.k = "probe"; op.a = {static_cast<std::int64_t>(r.below(2))}; }
+        else if (c < 93) { op.k = "pause_ticks"; op.a = {static_cast<std::int64_t>(r.below(2)), r.pick<std::int64_t>({2000, 9000, 30000})}; }
+        // crash of one node (only its identity seed survives), restart after a gap, session re-established by either side
+        else { op.k = "restart"; op.a = {static_cast<std::int64_t>(r.below(2)), r.pick<std::int64_t>({0, 300, 2500, 7000, 40000}), static_cast<std::int64_t>(r.below(2))}; }
         p.ops.push_back(op);
     }
     return p;
@@ -47,15 +49,17 @@ sk::Knobs knobs_c39(const Plan& p) {
 
 void exec_c39(const Plan& p, Ctx& ctx) {
     const std::int64_t rotation = p.knob("rotation", 20);
-    NodeProc A, B;
+    std::unique_ptr<NodeProc> nodes[2] = {std::make_unique<NodeProc>(), std::make_unique<NodeProc>()};
+    std::vector<std::unique_ptr<NodeProc>> graveyard;  // crashed instances (their processes are dead)
+    int generation[2] = {0, 0};
     en::Config ca = base_config(301), cb = base_config(302);
     ca.key_rotation_interval = cb.key_rotation_interval = seconds(rotation);
     ca.cleanup_interval = cb.cleanup_interval = seconds(100000);
     const std::int64_t ta = p.knob("tick_a_ms", 1000) * kMs, tb = p.knob("tick_b_ms", 1000) * kMs;
-    A.start("nodeA", sk::ip(10, 0, 1, 1), kA, ca, ta, p.knob("phase_a_ms", 0) * kMs);
-    B.start("nodeB", sk::ip(10, 0, 1, 2), kB, cb, tb, p.knob("phase_b_ms", 0) * kMs);
-    if (!link_nodes(A, B)) { ctx.violate("C39.setup_failed", "two honest nodes could not establish a session"); A.stop(); B.stop(); return; }
-    const std::int64_t established = sk::now_ns();
+    nodes[0]->start("nodeA", sk::ip(10, 0, 1, 1), kA, ca, ta, p.knob("phase_a_ms", 0) * kMs);
+    nodes[1]->start("nodeB", sk::ip(10, 0, 1, 2), kB, cb, tb, p.knob("phase_b_ms", 0) * kMs);
+    if (!link_nodes(*nodes[0], *nodes[1])) { ctx.violate("C39.setup_failed", "two honest nodes could not establish a session"); nodes[0]->stop(); nodes[1]->stop(); return; }
+    std::int64_t established = sk::now_ns();
     // sampling step and tolerated lag: the end that reaches a rotation boundary later switches at its next tick,
     // so two honest ends hold the same key within one tick period (+ network latency, + the instants at which the
     // two ends recorded the handshake, + the sampling step of this observer) of each other.
@@ -85,7 +89,7 @@ void exec_c39(const Plan& p, Ctx& ctx) {
     };
 
     auto observe = [&](const char* when) -> const Sample& {
-        Sample smp{sk::now_ns(), view(A, kB), view(B, kA)};
+        Sample smp{sk::now_ns(), nodes[0] ? view(*nodes[0], kB) : View{}, nodes[1] ? view(*nodes[1], kA) : View{}};
         const View& a = smp.a; const View& b = smp.b;
         const std::int64_t now = smp.t;
         const bool both_connected = a.connected && b.connected;
@@ -114,8 +118,8 @@ void exec_c39(const Plan& p, Ctx& ctx) {
             advance(op.at(0) * kMs, "during advance");
         } else if (op.k == "probe") {
             // end-to-end: a negative acknowledgement sent now must cost the sender reputation at the receiver
-            NodeProc& from = op.at(0) == 0 ? A : B;
-            NodeProc& to = op.at(0) == 0 ? B : A;
+            NodeProc& from = *nodes[op.at(0) == 0 ? 0 : 1];
+            NodeProc& to = *nodes[op.at(0) == 0 ? 1 : 0];
             const en::PeerId from_id = op.at(0) == 0 ? kA : kB, to_id = op.at(0) == 0 ? kB : kA;
             int before = 0, after = 0;
             bool sent = false;
@@ -143,7 +147,7 @@ void exec_c39(const Plan& p, Ctx& ctx) {
                 ctx.violate("C39.message_lost_with_equal_keys", fmt("both ends hold the same session key and report the session connected, yet a signed message from node %c sent at %.3f s was not accepted by the other end", op.at(0) == 0 ? 'A' : 'B', s0.t / 1e9));
             if (sent && !steady && after == before) ctx.probe("probe_lost_inside_switch_window");
         } else if (op.k == "pause_ticks") {
-            NodeProc& n = op.at(0) == 0 ? A : B;
+            NodeProc& n = *nodes[op.at(0) == 0 ? 0 : 1];
             const std::int64_t ps = sk::now_ns();
             n.actor.tick_enabled = false;
             advance(op.at(1) * kMs, "during tick starvation");
@@ -151,6 +155,26 @@ void exec_c39(const Plan& p, Ctx& ctx) {
             n.actor.next_tick = sk::now_ns();
             pauses.push_back({ps, sk::now_ns()});
             ctx.fault("tick_starvation");
+        } else if (op.k == "restart") {
+            const int i = op.at(0) == 0 ? 0 : 1;
+            const std::int64_t ps = sk::now_ns();
+            nodes[i]->crash();
+            graveyard.push_back(std::move(nodes[i]));
+            ctx.fault("node_crash_restart");
+            advance(op.at(1) * kMs, "while one node is down");
+            ++generation[i];
+            nodes[i] = std::make_unique<NodeProc>();
+            // same host, same peer id, same identity seed: only the key state is lost; the listener gets a new port
+            nodes[i]->start(std::string(i == 0 ? "nodeA" : "nodeB") + ".r" + std::to_string(generation[i]), i == 0 ? sk::ip(10, 0, 1, 1) : sk::ip(10, 0, 1, 2), i == 0 ? kA : kB,
+                            i == 0 ? ca : cb, i == 0 ? ta : tb, sk::now_ns() + 50 * kMs);
+            // the session is re-established out of band + connect, by the restarted node or by the survivor
+            const int initiator = op.at(2) ? i : 1 - i;
+            const bool relinked = link_nodes(*nodes[initiator], *nodes[1 - initiator]);
+            if (!relinked) ctx.probe("relink_failed");
+            else { ctx.boundary("session_reestablished_after_restart"); established = sk::now_ns(); }
+            // the interval in which the session was down or being re-established is not judged
+            pauses.push_back({ps, sk::now_ns()});
+            observe("after restart");
         }
     }
     // settle: several more rotation intervals with both ticking
@@ -186,8 +210,8 @@ void exec_c39(const Plan& p, Ctx& ctx) {
     };
     judge(true);
     judge(false);
-    A.stop();
-    B.stop();
+    nodes[0]->stop();
+    nodes[1]->stop();
 }
 
 Scenario make_c39() {
@@ -197,7 +221,7 @@ Scenario make_c39() {
     s.real_components = {"Node (tick, rotate_session_keys, send_secure, handle_transport_message)", "KeyManager (rotate_if_needed, derive_key)", "SessionManager"};
     s.stub_components = {"OS: threads -> fibers, sockets -> simulated TCP, clock (with seeded per-read jitter), entropy"};
     s.assumptions = {"two honest ends may hold different keys only while one of them has passed a rotation boundary and the other has not ticked yet: every key one end holds (while both report the session connected) must be held by the other end at some sampled instant within G = the larger tick period + 4 x max latency + 1 s + 2 sampling steps; tear-down and re-handshake is also accepted", "samples around a tick starvation of either node are not judged"};
-    s.rule = "plan = rotation interval {5,7,20,60 s}, two tick periods and phases, latency, jitter, preemption + 2..8 ops (advance 1..61 s, end-to-end probe, tick starvation of one side); non-trivial = at least one rotation happened or a side was starved of ticks; distinct = plan hash";
+    s.rule = "plan = rotation interval {5,7,20,60 s}, two tick periods and phases, latency, jitter, preemption + 2..8 ops (advance 1..61 s, end-to-end probe, tick starvation of one side, crash + restart of one node with the same identity after 0..40 s followed by re-establishment from either side); non-trivial = at least one rotation happened, a side was starved of ticks or a node was restarted; distinct = plan hash";
     s.gen = gen_c39; s.exec = exec_c39; s.kernel_knobs = knobs_c39;
     s.quick_runs = 1500; s.thorough_runs = 60000; s.quick_secs = 45; s.thorough_secs = 900;
     return s;
